@@ -120,3 +120,579 @@ Section SortingFacts.
     - rewrite <- HP. symmetry. rewrite sort_by_perm. reflexivity.
   Qed.
 End SortingFacts.
+
+(* ------------------------------------------------------------------ part 1: scripts *)
+Section ListFacts.
+  Context {A : Type}.
+
+  Lemma skipn_nth_error : forall (l : list A) x a, nth_error l x = Some a -> skipn x l = a :: skipn (S x) l.
+  Proof.
+    induction l as [|b l IH]; intros [|x] a H; cbn in *; try discriminate.
+    - now inversion H.
+    - now apply IH.
+  Qed.
+
+  Lemma skipn_skipn' : forall (l : list A) a b, skipn a (skipn b l) = skipn (b + a) l.
+  Proof.
+    intros l a b. revert l. induction b as [|b IH]; intros l; cbn; [reflexivity|].
+    destruct l; [now rewrite !skipn_nil|]. apply IH.
+  Qed.
+
+  Lemma slice_split : forall (l : list A) i x a, i <= x -> nth_error l x = Some a ->
+    skipn i l = slice l i x ++ a :: skipn (S x) l.
+  Proof.
+    intros l i x a Hi Hx. unfold slice.
+    rewrite <- (firstn_skipn (x - i) (skipn i l)) at 1. f_equal.
+    rewrite skipn_skipn'. replace (i + (x - i)) with x by lia. now apply skipn_nth_error.
+  Qed.
+
+  Lemma slice_length : forall (l : list A) i x, x <= length l -> length (slice l i x) = x - i.
+  Proof. intros. unfold slice. rewrite firstn_length, skipn_length. lia. Qed.
+
+  Lemma slice_to_end : forall (l : list A) i, slice l i (length l) = skipn i l.
+  Proof. intros. unfold slice. apply firstn_all2. rewrite skipn_length. lia. Qed.
+
+  Lemma nth_error_lt : forall (l : list A) x a, nth_error l x = Some a -> x < length l.
+  Proof. intros l x a H. apply nth_error_Some. congruence. Qed.
+End ListFacts.
+
+Section ScriptFacts.
+  Context {A : Type}.
+
+  Fixpoint dels (i : nat) (ds : list A) : script A :=
+    match ds with [] => [] | o :: ds' => (Z.of_nat i, Delete o) :: dels (S i) ds' end.
+
+  (* one segment between two matched pairs, before fusion: the Insert after old index i-1, then the
+     Deletes of old[i..i+|ds|) *)
+  Definition useg (i : nat) (ds g : list A) (ld : bool) : script A :=
+    match g with [] => [] | _ :: _ => [((Z.of_nat i - 1)%Z, Insert g ld)] end ++ dels i ds.
+
+  (* ... and after fusion *)
+  Fixpoint seg (i : nat) (ds g : list A) (ld : bool) : script A :=
+    match ds, g with
+    | [], [] => []
+    | [], _ :: _ => [((Z.of_nat i - 1)%Z, Insert g ld)]
+    | o :: ds', [] => (Z.of_nat i, Delete o) :: seg (S i) ds' [] true
+    | o :: ds', a :: g' => (Z.of_nat i, Replace o a) :: seg (S i) ds' g' true
+    end.
+
+  Lemma seg_nil_dels : forall ds i ld, seg i ds [] ld = dels i ds.
+  Proof. induction ds as [|o ds IH]; intros; cbn; [reflexivity|]. now rewrite IH. Qed.
+
+  (* ---- the queue loop *)
+  Lemma fuse_fuel : forall f1 f2 (q : script A), length q <= f1 -> length q <= f2 -> fuse f1 q = fuse f2 q.
+  Proof.
+    induction f1 as [|f1 IH]; intros f2 q H1 H2.
+    - destruct q; [|cbn in H1; lia]. destruct f2; reflexivity.
+    - destruct f2 as [|f2]. { destruct q; [reflexivity|cbn in H2; lia]. }
+      destruct q as [|curr q1]; [reflexivity|]. destruct q1 as [|next q2]; [reflexivity|].
+      cbn in H1, H2. cbn [fuse].
+      destruct curr as [i1 c1], next as [i2 c2].
+      destruct c1, c2; try (f_equal; apply IH; cbn; lia).
+      destruct (i1 =? i2 - 1)%Z; [|f_equal; apply IH; cbn; lia].
+      destruct items as [|a rest]; [reflexivity|]. f_equal.
+      destruct (1 <? length (a :: rest)); apply IH; cbn; lia.
+  Qed.
+
+  Definition fuseN (q : script A) : script A := fuse (length q) q.
+
+  Lemma fuseN_cons_other : forall c n q2,
+    (forall items ld y, snd c = Insert items ld -> snd n = Delete y -> fst c <> (fst n - 1)%Z) ->
+    fuseN (c :: n :: q2) = c :: fuseN (n :: q2).
+  Proof.
+    intros [i1 c1] [i2 c2] q2 H. unfold fuseN. cbn [length fuse].
+    destruct c1, c2; try reflexivity.
+    destruct (i1 =? i2 - 1)%Z eqn:E; [|reflexivity].
+    apply Z.eqb_eq in E. exfalso. eapply H; cbn; eauto.
+  Qed.
+
+  Lemma fuse_S_ins_del : forall f i2 a rest ld y (q2 : script A),
+    fuse (S f) (((i2 - 1)%Z, Insert (a :: rest) ld) :: (i2, Delete y) :: q2) =
+    (i2, Replace y a) ::
+      (if 1 <? length (a :: rest) then fuse f ((i2, Insert rest true) :: q2) else fuse f q2).
+  Proof. intros. cbn [fuse]. rewrite Z.eqb_refl. reflexivity. Qed.
+
+  Lemma fuseN_fuse : forall i2 a rest ld y q2,
+    fuseN (((i2 - 1)%Z, Insert (a :: rest) ld) :: (i2, Delete y) :: q2) =
+    (i2, Replace y a) :: match rest with
+                         | [] => fuseN q2
+                         | _ :: _ => fuseN ((i2, Insert rest true) :: q2)
+                         end.
+  Proof.
+    intros. unfold fuseN. cbn [length]. rewrite fuse_S_ins_del. f_equal.
+    destruct rest as [|b r]; cbn [length Nat.ltb Nat.leb].
+    - apply fuse_fuel; lia.
+    - reflexivity.
+  Qed.
+
+  Definition no_fuse_head (p : Z) (rest : script A) : Prop :=
+    match rest with (i2, Delete _) :: _ => i2 <> (p + 1)%Z | _ => True end.
+
+  Lemma fuseN_dels : forall ds i rest, fuseN (dels i ds ++ rest) = dels i ds ++ fuseN rest.
+  Proof.
+    induction ds as [|o ds IH]; intros i rest; [reflexivity|].
+    cbn [dels app]. rewrite <- IH.
+    destruct (dels (S i) ds ++ rest) as [|n q2]; [reflexivity|].
+    apply fuseN_cons_other. intros; cbn in *; discriminate.
+  Qed.
+
+  Lemma fuseN_useg : forall ds i g ld rest,
+    no_fuse_head (Z.of_nat (i + length ds) - 1) rest ->
+    fuseN (useg i ds g ld ++ rest) = seg i ds g ld ++ fuseN rest.
+  Proof.
+    induction ds as [|o ds IH]; intros i g ld rest Hh.
+    - destruct g as [|a g']; [reflexivity|].
+      unfold useg. cbn [dels app seg].
+      destruct rest as [|[i2 c2] q2]; [reflexivity|].
+      apply fuseN_cons_other. intros items ld' y _ Hc. cbn in Hc. subst c2. cbn in *.
+      rewrite Nat.add_0_r in Hh. lia.
+    - destruct g as [|a g'].
+      + unfold useg. cbn [app]. rewrite fuseN_dels. now rewrite seg_nil_dels.
+      + unfold useg. cbn [app dels seg]. rewrite fuseN_fuse. f_equal.
+        assert (Hh' : no_fuse_head (Z.of_nat (S i + length ds) - 1) rest).
+        { replace (S i + length ds) with (i + length (o :: ds)) by (cbn; lia). exact Hh. }
+        specialize (IH (S i) g' true rest Hh'). unfold useg in IH.
+        destruct g' as [|b g'']; cbn [app] in IH |- *.
+        * exact IH.
+        * replace (Z.of_nat (S i) - 1)%Z with (Z.of_nat i) in IH by lia. exact IH.
+  Qed.
+
+  (* ---- the application of a fused segment *)
+  Ltac finish_run s' rest :=
+    cbn [length];
+    match goal with
+    | |- _ = option_map _ (run s' ?n2 rest) =>
+      repeat match goal with
+             | |- context [run s' ?n1 rest] =>
+               lazymatch n1 with n2 => fail | _ => replace n1 with n2 by lia end
+             end
+    end;
+    destruct (run s' _ rest); reflexivity.
+
+  Lemma run_seg : forall ds g i ld pre rest (s' : script A),
+    length pre <= i -> (ds <> [] \/ g <> []) ->
+    run (seg i ds g ld ++ s') (i - length pre) (pre ++ ds ++ rest) =
+    option_map (fun r => pre ++ g ++ r) (run s' (i + length ds) rest).
+  Proof.
+    induction ds as [|o ds IH]; intros g i ld pre rest s' Hp Hne.
+    - destruct g as [|a g']; [destruct Hne; congruence|].
+      cbn [seg app run length].
+      replace (Z.of_nat i - 1 + 1)%Z with (Z.of_nat i) by lia. rewrite Nat2Z.id.
+      replace (Z.of_nat i - 1 <? -1)%Z with false by (symmetry; apply Z.ltb_ge; lia).
+      replace (i <? i - length pre) with false by (symmetry; apply Nat.ltb_ge; lia).
+      replace (i - (i - length pre)) with (length pre) by lia.
+      replace (length (pre ++ rest) <? length pre) with false
+        by (symmetry; apply Nat.ltb_ge; rewrite app_length; lia).
+      cbn [orb]. rewrite firstn_app, Nat.sub_diag, firstn_all, firstn_O, app_nil_r.
+      rewrite skipn_app, Nat.sub_diag, skipn_all, skipn_O. cbn [app].
+      rewrite Nat.add_0_r. reflexivity.
+    - assert (Hk : (Z.of_nat i <? 0)%Z = false) by (apply Z.ltb_ge; lia).
+      assert (Hc : (i <? i - length pre) = false) by (apply Nat.ltb_ge; lia).
+      assert (Hsk : skipn (i - (i - length pre)) (pre ++ (o :: ds) ++ rest) = o :: ds ++ rest).
+      { replace (i - (i - length pre)) with (length pre) by lia.
+        rewrite skipn_app, Nat.sub_diag, skipn_all, skipn_O. reflexivity. }
+      assert (Hfi : firstn (i - (i - length pre)) (pre ++ (o :: ds) ++ rest) = pre).
+      { replace (i - (i - length pre)) with (length pre) by lia.
+        rewrite firstn_app, Nat.sub_diag, firstn_all, firstn_O, app_nil_r. reflexivity. }
+      cbn [app] in Hsk, Hfi.
+      destruct g as [|a g'].
+      + cbn [seg app run]. rewrite Nat2Z.id, Hk, Hc, Hsk, Hfi. cbn [orb].
+        destruct ds as [|o' ds'].
+        * cbn [seg app length]. replace (i + 1) with (S i) by lia.
+          destruct (run s' (S i) rest); reflexivity.
+        * assert (Hne' : o' :: ds' <> [] \/ @nil A <> []) by (left; discriminate).
+          specialize (IH [] (S i) true [] rest s' (Nat.le_0_l _) Hne').
+          cbn [length app] in IH |- *. rewrite Nat.sub_0_r in IH. rewrite IH. clear IH.
+          finish_run s' rest.
+      + cbn [seg app run]. rewrite Nat2Z.id, Hk, Hc, Hsk, Hfi. cbn [orb].
+        destruct ds as [|o' ds'].
+        * destruct g' as [|b g''].
+          -- cbn [seg app length]. replace (i + 1) with (S i) by lia.
+             destruct (run s' (S i) rest); reflexivity.
+          -- assert (Hne' : @nil A <> [] \/ b :: g'' <> []) by (right; discriminate).
+             specialize (IH (b :: g'') (S i) true [] rest s' (Nat.le_0_l _) Hne').
+             cbn [length app] in IH |- *. rewrite Nat.sub_0_r in IH. rewrite IH. clear IH.
+             finish_run s' rest.
+        * assert (Hne' : o' :: ds' <> [] \/ g' <> []) by (left; discriminate).
+          specialize (IH g' (S i) true [] rest s' (Nat.le_0_l _) Hne').
+          cbn [length app] in IH |- *. rewrite Nat.sub_0_r in IH. rewrite IH. clear IH.
+          finish_run s' rest.
+  Qed.
+End ScriptFacts.
+
+
+Lemma perm4 : forall {X} (a b c d : list X), Permutation ((a ++ b) ++ (c ++ d)) ((c ++ a) ++ (b ++ d)).
+Proof.
+  intros. rewrite <- (app_assoc c a). rewrite (app_assoc a b d). apply Permutation_app_swap_app.
+Qed.
+
+Lemma nil_or_not : forall {X} (l : list X), l = [] \/ l <> [].
+Proof. destruct l; [left|right]; congruence. Qed.
+
+Section Correct.
+  Context {A : Type} (eqb : A -> A -> bool).
+  Hypothesis eqb_eq : forall a b, eqb a b = true -> a = b.
+  Variables old new : list A.
+
+  (* closed form of the sorted script (ugen) and of the fused script (gen) of a trace:
+     i = next old index, j = next new index not yet covered *)
+  Fixpoint ugen (i j : nat) (t : trace) : script A :=
+    match t with
+    | [] => useg i (skipn i old) (skipn j new) false
+    | (x, y) :: t' => useg i (slice old i x) (slice new j y) false ++ ugen (S x) (S y) t'
+    end.
+  Fixpoint gen (i j : nat) (t : trace) : script A :=
+    match t with
+    | [] => seg i (skipn i old) (skipn j new) false
+    | (x, y) :: t' => seg i (slice old i x) (slice new j y) false ++ gen (S x) (S y) t'
+    end.
+
+  Lemma valid_from_cons : forall i j x y t, valid_from eqb i j ((x, y) :: t) old new = true ->
+    i <= x /\ j <= y /\ (exists a, nth_error old x = Some a /\ nth_error new y = Some a) /\
+    valid_from eqb (S x) (S y) t old new = true.
+  Proof.
+    intros i j x y t H. cbn in H. rewrite !andb_true_iff in H. destruct H as [[[H1 H2] H3] H4].
+    apply Nat.leb_le in H1, H2.
+    destruct (nth_error old x) eqn:E1; destruct (nth_error new y) eqn:E2; try discriminate.
+    apply eqb_eq in H3. subst. eauto 10.
+  Qed.
+
+  (* ---- positions *)
+  Definition lb (lo : Z) (s : script A) : Prop := Forall (fun c => (lo <= fst c)%Z) s.
+  Definition ub (hi : Z) (s : script A) : Prop := Forall (fun c => (fst c < hi)%Z) s.
+
+  Lemma dels_lb : forall (ds : list A) i, lb (Z.of_nat i) (dels i ds).
+  Proof.
+    induction ds as [|o ds IH]; intros i; cbn; constructor; [cbn; lia|].
+    eapply Forall_impl; [|apply IH]. cbn; intros; lia.
+  Qed.
+  Lemma dels_ub : forall (ds : list A) i, ub (Z.of_nat (i + length ds)) (dels i ds).
+  Proof.
+    induction ds as [|o ds IH]; intros i; cbn; constructor; [cbn; lia|].
+    replace (i + S (length ds)) with (S i + length ds) by lia. apply IH.
+  Qed.
+  Lemma ckey_lt : forall (a b : ichange A), (fst a < fst b)%Z -> key_ltb (ckey a) (ckey b) = true.
+  Proof. unfold key_ltb, ckey; cbn. intros. apply orb_true_iff; left. now apply Z.ltb_lt. Qed.
+  Lemma dels_sorted : forall (ds : list A) i, sorted_lt ckey (dels i ds).
+  Proof.
+    induction ds as [|o ds IH]; intros i; cbn; constructor; [apply IH|].
+    eapply Forall_impl; [|apply (dels_lb ds (S i))]. cbn. intros c Hc. apply ckey_lt. cbn. lia.
+  Qed.
+  Lemma useg_sorted : forall i (ds g : list A) ld, sorted_lt ckey (useg i ds g ld).
+  Proof.
+    intros. unfold useg. destruct g; cbn [app]; [apply dels_sorted|].
+    constructor; [apply dels_sorted|].
+    eapply Forall_impl; [|apply (dels_lb ds i)]. intros c Hc. apply ckey_lt. cbn in *. lia.
+  Qed.
+  Lemma useg_lb : forall i (ds g : list A) ld, lb (Z.of_nat i - 1) (useg i ds g ld).
+  Proof.
+    intros. unfold useg, lb. apply Forall_app; split.
+    - destruct g; constructor; [cbn; lia|constructor].
+    - eapply Forall_impl; [|apply dels_lb]. cbn; intros; lia.
+  Qed.
+  Lemma useg_ub : forall i (ds g : list A) ld, ub (Z.of_nat (i + length ds)) (useg i ds g ld).
+  Proof.
+    intros. unfold useg, ub. apply Forall_app; split.
+    - destruct g; constructor; [cbn; lia|constructor].
+    - apply dels_ub.
+  Qed.
+  Lemma sorted_lt_app : forall (l1 l2 : script A) m,
+    sorted_lt ckey l1 -> sorted_lt ckey l2 -> ub m l1 -> lb m l2 -> sorted_lt ckey (l1 ++ l2).
+  Proof.
+    induction l1 as [|c l1 IH]; cbn; intros l2 m H1 H2 Hu Hl; [assumption|].
+    inversion H1; subst. inversion Hu; subst. constructor; [eapply IH; eauto|].
+    apply Forall_app; split; [assumption|].
+    eapply Forall_impl; [|exact Hl]. intros d Hd. apply ckey_lt. cbn in *. lia.
+  Qed.
+
+  Lemma ugen_lb : forall t i j, valid_from eqb i j t old new = true -> lb (Z.of_nat i - 1) (ugen i j t).
+  Proof.
+    induction t as [|[x y] t IH]; intros i j Hv; cbn [ugen]; [apply useg_lb|].
+    apply valid_from_cons in Hv as (Hi & Hj & _ & Hv').
+    apply Forall_app; split; [apply useg_lb|].
+    eapply Forall_impl; [|apply (IH _ _ Hv')]. intros c Hc; cbv beta in Hc |- *; lia.
+  Qed.
+
+  Lemma ugen_sorted : forall t i j, valid_from eqb i j t old new = true -> sorted_lt ckey (ugen i j t).
+  Proof.
+    induction t as [|[x y] t IH]; intros i j Hv; cbn [ugen]; [apply useg_sorted|].
+    pose proof Hv as Hv0. apply valid_from_cons in Hv as (Hi & Hj & (a & Ho & Hn) & Hv').
+    apply (sorted_lt_app _ _ (Z.of_nat x)).
+    - apply useg_sorted.
+    - now apply IH.
+    - pose proof (useg_ub i (slice old i x) (slice new j y) false) as U.
+      rewrite slice_length in U by (apply nth_error_lt in Ho; lia).
+      replace (i + (x - i)) with x in U by lia. exact U.
+    - pose proof (ugen_lb t (S x) (S y) Hv') as L.
+      replace (Z.of_nat (S x) - 1)%Z with (Z.of_nat x) in L by lia. exact L.
+  Qed.
+
+  (* ---- the unsorted script is a permutation of the closed form *)
+  Lemma in_xs_false_lt : forall t i j, valid_from eqb i j t old new = true ->
+    forall q, q < i -> in_xs t q = false.
+  Proof.
+    induction t as [|[x y] t IH]; intros i j Hv q Hq; [reflexivity|].
+    apply valid_from_cons in Hv as (Hi & Hj & _ & Hv'). cbn.
+    replace (x =? q) with false by (symmetry; apply Nat.eqb_neq; lia). cbn.
+    eapply IH; [exact Hv'|lia].
+  Qed.
+
+  Lemma deletes_from_app : forall t (l1 l2 : list A) p,
+    deletes_from t p (l1 ++ l2) = deletes_from t p l1 ++ deletes_from t (p + length l1) l2.
+  Proof.
+    induction l1 as [|a l1 IH]; cbn; intros l2 p; [now rewrite Nat.add_0_r|].
+    rewrite IH, <- app_assoc. replace (S p + length l1) with (p + S (length l1)) by lia. reflexivity.
+  Qed.
+  Lemma deletes_from_none : forall t (l : list A) p,
+    (forall q, p <= q < p + length l -> in_xs t q = false) -> deletes_from t p l = dels p l.
+  Proof.
+    induction l as [|a l IH]; cbn; intros p H; [reflexivity|].
+    rewrite (H p) by lia. cbn. f_equal. apply IH. intros; apply H; lia.
+  Qed.
+  Lemma deletes_from_ext : forall t t' (l : list A) p,
+    (forall q, p <= q -> in_xs t q = in_xs t' q) -> deletes_from t p l = deletes_from t' p l.
+  Proof.
+    induction l as [|a l IH]; cbn; intros p H; [reflexivity|].
+    rewrite (H p) by lia. f_equal. apply IH. intros; apply H; lia.
+  Qed.
+
+  Lemma emit_slice : forall j y start, y <= length new ->
+    emit new j y start =
+    match slice new j y with [] => [] | _ :: _ => [(start, Insert (slice new j y) false)] end.
+  Proof.
+    intros j y start H. unfold emit. pose proof (slice_length new j y H) as L.
+    destruct (j <? y) eqn:E.
+    - apply Nat.ltb_lt in E. destruct (slice new j y); [cbn in *; lia|reflexivity].
+    - apply Nat.ltb_ge in E. destruct (slice new j y); [reflexivity|cbn in *; lia].
+  Qed.
+
+  Lemma presort_perm : forall t i j, valid_from eqb i j t old new = true ->
+    Permutation (deletes_from t i (skipn i old) ++ inserts_from new j (Z.of_nat i - 1) t) (ugen i j t).
+  Proof.
+    induction t as [|[x y] t IH]; intros i j Hv.
+    - cbn [inserts_from ugen]. rewrite deletes_from_none by (intros; reflexivity).
+      rewrite emit_slice by lia. rewrite slice_to_end. unfold useg. apply Permutation_app_comm.
+    - apply valid_from_cons in Hv as (Hi & Hj & (a & Ho & Hn) & Hv').
+      cbn [inserts_from ugen].
+      assert (Lo : length (slice old i x) = x - i) by (apply slice_length; apply nth_error_lt in Ho; lia).
+      rewrite (slice_split old i x a Hi Ho).
+      rewrite deletes_from_app, Lo. replace (i + (x - i)) with x by lia.
+      rewrite (deletes_from_none ((x, y) :: t) (slice old i x) i).
+      2:{ intros q Hq. rewrite Lo in Hq. cbn.
+          replace (x =? q) with false by (symmetry; apply Nat.eqb_neq; lia). cbn.
+          eapply in_xs_false_lt; [exact Hv'|lia]. }
+      cbn [deletes_from]. replace (in_xs ((x, y) :: t) x) with true by (cbn; now rewrite Nat.eqb_refl).
+      cbn [app].
+      rewrite (deletes_from_ext ((x, y) :: t) t _ (S x))
+        by (intros q Hq; cbn; replace (x =? q) with false by (symmetry; apply Nat.eqb_neq; lia); reflexivity).
+      rewrite emit_slice by (apply nth_error_lt in Hn; lia).
+      specialize (IH (S x) (S y) Hv'). replace (Z.of_nat (S x) - 1)%Z with (Z.of_nat x) in IH by lia.
+      rewrite <- IH. unfold useg. apply perm4.
+  Qed.
+
+  (* ---- fusing the sorted script gives the closed form *)
+  Lemma ugen_head : forall t i j p, valid_from eqb i j t old new = true -> (p + 1 < Z.of_nat i)%Z ->
+    no_fuse_head p (ugen i j t).
+  Proof.
+    induction t as [|[x y] t IH]; intros i j p Hv Hp; cbn [ugen]; unfold useg.
+    - destruct (skipn j new); cbn [app]; [|exact I]. destruct (skipn i old); cbn; [exact I|lia].
+    - apply valid_from_cons in Hv as (Hi & Hj & _ & Hv').
+      destruct (slice new j y); cbn [app]; [|exact I].
+      destruct (slice old i x); cbn [dels app]; [|cbn; lia].
+      apply IH; [assumption|lia].
+  Qed.
+
+  Lemma fuse_ugen : forall t i j, valid_from eqb i j t old new = true -> fuseN (ugen i j t) = gen i j t.
+  Proof.
+    induction t as [|[x y] t IH]; intros i j Hv; cbn [ugen gen].
+    - rewrite <- (app_nil_r (useg _ _ _ _)). rewrite fuseN_useg by exact I. cbn. apply app_nil_r.
+    - apply valid_from_cons in Hv as (Hi & Hj & (a & Ho & Hn) & Hv').
+      rewrite fuseN_useg; [now rewrite IH|].
+      apply ugen_head; [assumption|].
+      rewrite slice_length by (apply nth_error_lt in Ho; lia). lia.
+  Qed.
+
+  (* ---- and applying the closed form to old gives new *)
+  Lemma run_gen : forall t i j pre, valid_from eqb i j t old new = true -> length pre <= i ->
+    run (gen i j t) (i - length pre) (pre ++ skipn i old) = Some (pre ++ skipn j new).
+  Proof.
+    induction t as [|[x y] t IH]; intros i j pre Hv Hp; cbn [gen].
+    - destruct (nil_or_not (skipn i old)) as [Eo|Eo]; [destruct (nil_or_not (skipn j new)) as [En|En]|].
+      + rewrite Eo, En. reflexivity.
+      + rewrite <- (app_nil_r (seg _ _ _ _)).
+        replace (pre ++ skipn i old) with (pre ++ skipn i old ++ []) by (now rewrite app_nil_r).
+        rewrite run_seg by tauto. cbn [run option_map]. now rewrite app_nil_r.
+      + rewrite <- (app_nil_r (seg _ _ _ _)).
+        replace (pre ++ skipn i old) with (pre ++ skipn i old ++ []) by (now rewrite app_nil_r).
+        rewrite run_seg by tauto. cbn [run option_map]. now rewrite app_nil_r.
+    - apply valid_from_cons in Hv as (Hi & Hj & (a & Ho & Hn) & Hv').
+      assert (Lo : length (slice old i x) = x - i) by (apply slice_length; apply nth_error_lt in Ho; lia).
+      rewrite (slice_split old i x a Hi Ho), (slice_split new j y a Hj Hn).
+      destruct (nil_or_not (slice old i x)) as [Eo|Eo];
+        [destruct (nil_or_not (slice new j y)) as [En|En]|].
+      + rewrite Eo in Lo. cbn in Lo. rewrite Eo, En. cbn [seg app].
+        specialize (IH (S x) (S y) (pre ++ [a]) Hv').
+        rewrite app_length in IH. cbn [length] in IH.
+        replace (S x - (length pre + 1)) with (i - length pre) in IH by lia.
+        rewrite <- !app_assoc in IH. cbn [app] in IH. apply IH. lia.
+      + rewrite run_seg by tauto. rewrite Lo. replace (i + (x - i)) with x by lia.
+        specialize (IH (S x) (S y) [a] Hv'). cbn [length app] in IH.
+        replace (S x - 1) with x in IH by lia. rewrite IH by lia. reflexivity.
+      + rewrite run_seg by tauto. rewrite Lo. replace (i + (x - i)) with x by lia.
+        specialize (IH (S x) (S y) [a] Hv'). cbn [length app] in IH.
+        replace (S x - 1) with x in IH by lia. rewrite IH by lia. reflexivity.
+  Qed.
+
+  Lemma sorted_presort : forall t, valid_trace eqb t old new = true ->
+    sort_by ckey (presort t old new) = ugen 0 0 t.
+  Proof.
+    intros t Hv. apply sort_by_unique; [now apply ugen_sorted|].
+    pose proof (presort_perm t 0 0 Hv) as P. exact P.
+  Qed.
+
+  Lemma script_closed_form : forall t, valid_trace eqb t old new = true ->
+    script_of_trace t old new = gen 0 0 t.
+  Proof.
+    intros t Hv. unfold script_of_trace. cbv zeta. rewrite sorted_presort by assumption.
+    apply (fuse_ugen t 0 0 Hv).
+  Qed.
+
+  Theorem script_correct : forall t, valid_trace eqb t old new = true ->
+    apply_script (script_of_trace t old new) old = Some new.
+  Proof.
+    intros t Hv. rewrite script_closed_form by assumption.
+    exact (run_gen t 0 0 [] Hv (Nat.le_refl _)).
+  Qed.
+
+  (* the `items[0]` of the queue loop is never taken on an empty Insert: every Insert of the sorted
+     script carries at least one element *)
+  Definition insert_nonempty (c : ichange A) : Prop :=
+    match snd c with Insert items _ => items <> [] | _ => True end.
+
+  Lemma useg_inserts_nonempty : forall (ds g : list A) i ld, Forall insert_nonempty (useg i ds g ld).
+  Proof.
+    intros. unfold useg. apply Forall_app; split.
+    - destruct g; constructor; [cbn; discriminate|constructor].
+    - revert i. induction ds as [|o ds IH]; intros i; cbn; constructor; [exact I|apply IH].
+  Qed.
+
+  Lemma sorted_inserts_nonempty : forall t, valid_trace eqb t old new = true ->
+    Forall insert_nonempty (sort_by ckey (presort t old new)).
+  Proof.
+    intros t Hv. rewrite sorted_presort by assumption. clear Hv.
+    assert (H : forall i j, Forall insert_nonempty (ugen i j t)).
+    { induction t as [|[x y] t IH]; intros i j; cbn [ugen]; [apply useg_inserts_nonempty|].
+      apply Forall_app; split; [apply useg_inserts_nonempty|apply IH]. }
+    apply H.
+  Qed.
+End Correct.
+
+(* ------------------------------------------------------------------ part 2: text edits *)
+From Coq Require Import FinFun.
+
+Section EditFacts.
+  Context {A : Type}.
+
+  Lemma disjoint_nodup_start : forall (es : list (edit A)), pairwise_disjoint es -> NoDup (map e_start es).
+  Proof.
+    induction 1 as [|a l Ha Hl IH]; cbn; constructor; [|assumption].
+    intros Hin. apply in_map_iff in Hin as (b & Eb & Hb).
+    rewrite Forall_forall in Ha. specialize (Ha b Hb). unfold disjoint2, edit_before in Ha. lia.
+  Qed.
+
+  Lemma nodup_ekey : forall (es : list (edit A)), NoDup (map e_start es) -> NoDup (map ekey es).
+  Proof.
+    intros es H.
+    replace (map ekey es) with (map (fun s => ((- Z.of_nat s)%Z, 0%Z)) (map e_start es))
+      by (rewrite map_map; reflexivity).
+    apply Injective_map_NoDup; [|assumption].
+    intros x y E. inversion E. lia.
+  Qed.
+
+  (* back-to-front application does not depend on the order in which the edits are listed *)
+  Theorem edits_commute : forall (es es' : list (edit A)) d,
+    Permutation es es' -> pairwise_disjoint es -> apply_edits es d = apply_edits es' d.
+  Proof.
+    intros es es' d HP Hd. unfold apply_edits.
+    rewrite (sort_by_perm_eq ekey es es'); [reflexivity| |assumption].
+    apply nodup_ekey, disjoint_nodup_start, Hd.
+  Qed.
+
+  Lemma ascending_disjoint : forall (es : list (edit A)), ascending es -> pairwise_disjoint es.
+  Proof.
+    induction es as [|a es IH]; cbn; intros H; [constructor|].
+    destruct H as [Hb Ha]. constructor; [|now apply IH].
+    eapply Forall_impl; [|exact Hb]. intros b Hab. now left.
+  Qed.
+
+  Lemma ss_snoc : forall {X} (R : X -> X -> Prop) l a,
+    StronglySorted R l -> Forall (fun x => R x a) l -> StronglySorted R (l ++ [a]).
+  Proof.
+    induction l as [|b l IH]; cbn; intros a Hs Hf; [repeat constructor|].
+    inversion Hs; subst. inversion Hf; subst. constructor; [now apply IH|].
+    apply Forall_app; split; [assumption|]. now constructor.
+  Qed.
+
+  Lemma ascending_rev_sorted : forall (es : list (edit A)), ascending es -> sorted_lt ekey (rev es).
+  Proof.
+    induction es as [|a es IH]; cbn; intros H; [constructor|].
+    destruct H as [Hb Ha]. apply ss_snoc; [now apply IH|].
+    apply Forall_rev. eapply Forall_impl; [|exact Hb].
+    intros b [_ Hlt]. unfold key_ltb, ekey; cbn. apply orb_true_iff; left. apply Z.ltb_lt. lia.
+  Qed.
+
+  Lemma firstn_split : forall (d : list A) p s, p <= s ->
+    firstn s d = firstn p d ++ firstn (s - p) (skipn p d).
+  Proof.
+    intros d p s H. rewrite <- (firstn_skipn p d) at 1.
+    rewrite firstn_app, firstn_firstn. replace (Init.Nat.min s p) with p by lia.
+    f_equal. rewrite firstn_length.
+    destruct (Nat.le_gt_cases p (length d)).
+    - replace (Init.Nat.min p (length d)) with p by lia. reflexivity.
+    - rewrite skipn_all2 by lia. now rewrite !firstn_nil.
+  Qed.
+
+  Lemma fold_rev_subst : forall (es : list (edit A)) pos d,
+    ascending es -> Forall (in_doc d) es -> Forall (fun e => pos <= e_start e) es ->
+    fold_left splice (rev es) d = firstn pos d ++ subst_asc es pos (skipn pos d).
+  Proof.
+    induction es as [|a es IH]; intros pos d Hasc Hin Hpos.
+    - cbn. symmetry. apply firstn_skipn.
+    - cbn [rev]. rewrite fold_left_app. cbn [fold_left].
+      destruct Hasc as [Hb Hasc]. inversion Hin as [|? ? [Hse Hed] Hin']; subst.
+      inversion Hpos as [|? ? Hp Hpos']; subst.
+      rewrite (IH (e_end a) d Hasc Hin').
+      2:{ eapply Forall_impl; [|exact Hb]. intros b [Hab _]. exact Hab. }
+      unfold splice at 1. cbn [subst_asc].
+      assert (L : length (firstn (e_end a) d) = e_end a) by (rewrite firstn_length; lia).
+      rewrite firstn_app, L. replace (e_start a - e_end a) with 0 by lia.
+      rewrite firstn_O, app_nil_r, firstn_firstn.
+      replace (Init.Nat.min (e_start a) (e_end a)) with (e_start a) by lia.
+      rewrite skipn_app, L, Nat.sub_diag, skipn_O.
+      rewrite (skipn_all2 (firstn (e_end a) d)) by lia. cbn [app].
+      rewrite skipn_skipn'. replace (pos + (e_end a - pos)) with (e_end a) by lia.
+      rewrite (firstn_split d pos (e_start a) Hp). now rewrite <- app_assoc.
+  Qed.
+
+  (* ... and equals one pass from the front, in which every later range is read relative to what has
+     already been consumed *)
+  Theorem apply_edits_front_to_back : forall (es : list (edit A)) d,
+    ascending es -> Forall (in_doc d) es -> apply_edits es d = apply_front_to_back es d.
+  Proof.
+    intros es d Hasc Hin. unfold apply_edits, apply_front_to_back.
+    rewrite (sort_by_unique ekey es (rev es)).
+    - rewrite (fold_rev_subst es 0 d Hasc Hin); [reflexivity|].
+      apply Forall_forall. intros; lia.
+    - now apply ascending_rev_sorted.
+    - apply Permutation_rev.
+  Qed.
+
+  Theorem edits_any_order : forall (es es' : list (edit A)) d,
+    Permutation es es' -> ascending es -> Forall (in_doc d) es ->
+    apply_edits es' d = apply_front_to_back es d.
+  Proof.
+    intros es es' d HP Hasc Hin.
+    rewrite <- (edits_commute es es' d HP (ascending_disjoint es Hasc)).
+    now apply apply_edits_front_to_back.
+  Qed.
+End EditFacts.
